@@ -1,17 +1,44 @@
-"""Replay a violation file: prints the recorded case and, when it carries a program source, runs it
-on the current /repo under the recorded configurations."""
-import sys, os, json
+"""Replay a violation file: prints the recorded case and re-runs it on the current /repo with the driver command
+that produced it (program source, JSON document, timestamp, reader text, minifier session, hostile program)."""
+import sys, os, json, base64
 sys.path.insert(0, os.path.dirname(os.path.abspath(__file__)))
 from vlib import *
 
+
+def show(x):
+    print(json.dumps(x, indent=1, default=str)[:6000])
+
+
 def main():
     d = json.load(open(sys.argv[1]))
-    print(json.dumps(d, indent=1)[:6000])
+    show(d)
     det = d.get("detail") or {}
-    if isinstance(det, dict) and det.get("src"):
-        b = build_driver()
-        out = driver_json(b, ["run"], [{"id": "replay", "seq": [det["src"]], "cfgs": [{}, {"tro": "off"}]}])
-        print(json.dumps(out, indent=1)[:6000])
+    if not isinstance(det, dict):
+        return 0
+    b = build_driver()
+    if det.get("src"):
+        src = det["src"]
+        seq = src if isinstance(src, list) else [src]
+        cfg = det.get("cfg") if isinstance(det.get("cfg"), dict) else {}
+        if d.get("property") == "C03" and isinstance(src, str):
+            show(driver_json(b, ["hostile"], [{"id": "replay", "src": src, "maxsteps": det.get("maxsteps", 1000000), "deadline_ms": det.get("deadline_ms", 5000)}]))
+        else:
+            show(driver_json(b, ["run"], [{"id": "replay", "seq": seq, "cfgs": [cfg, dict(cfg, tro="off")]}]))
+    elif det.get("doc") is not None:
+        show(driver_json(b, ["jsonx"], [{"id": "replay", "doc_b64": base64.b64encode(det["doc"].encode("utf-8", "backslashreplace")).decode()}]))
+    elif det.get("stamp"):
+        show(driver_json(b, ["timex"], [{"id": "replay", "stamp": det["stamp"]}]))
+    elif det.get("pair"):
+        show(driver_json(b, ["timex"], [{"id": "replay", "pair": det["pair"], "adds": []}]))
+    elif det.get("duration") is not None:
+        show(driver_json(b, ["timex"], [{"id": "replay", "duration": det["duration"]}]))
+    elif det.get("case") and d.get("property") == "C15":
+        show(driver_json(b, ["timex"], [{"id": "replay", "sleep": det["case"]}]))
+    elif det.get("text") is not None:
+        show(driver_json(b, ["reader"], [{"id": "replay", "text": det["text"], "format": True}]))
+    elif det.get("files"):
+        show(driver_json(b, ["minify"], [{"id": "replay", "files": [{"path": "f%d.lisp" % i, "src": s} for i, s in enumerate(det["files"])], "preserve_params": True}]))
     return 0
+
 
 main_wrap(main)
